@@ -199,6 +199,17 @@ Definition boundary_exact (g b : geom) : bool :=
                     end) W.
 Definition n_segments (g : geom) : nat := length (arr_segments g).
 
+(* non-lattice input only: a MultiPolygon leaf whose members overlap in exact arithmetic (a ring
+   point of one member strictly inside another) although the implementation's float validation
+   accepted it - e.g. members that touched along an edge before the coordinates were sheared and
+   rounded.  Such a case is outside the property's domain (not valid) and is excluded, counted. *)
+Definition mpoly_overlap (l : geom) : bool :=
+  match l with
+  | GMPoly _ ys => existsb (fun p => existsb (fun y => poly_interior y p) ys) (probes (boundary l))
+  | _ => false
+  end.
+Definition members_overlap (g : geom) : bool := existsb mpoly_overlap (leaves g).
+
 (* ------------------------------------------------------------------ the mod-2 rule, stated *)
 (* p is an end point of the non-empty, non-closed line string l *)
 Definition open_end_of (l : lineT Q) (p : pt) : bool :=
